@@ -1,0 +1,15 @@
+//go:build verif
+
+// Machine-checked contracts for package assets (comment-only; read by /verif/gocv).
+// Asset objects are immutable values handed in by the caller: their getters are functions of the object.
+
+package assets
+
+//@ interface Group.UUID
+//@   pure
+
+//@ interface Group.Query
+//@   pure
+
+//@ interface Group.Name
+//@   pure
